@@ -11,7 +11,8 @@ Obu(t, ev, n, hs, salt) ==   \* ev: 0 none, 1 (0,0), 2 (1,0), 3 (0,1)
   [type |-> t, ext |-> ev > 0, tid |-> IF ev = 2 THEN 1 ELSE 0, sid |-> IF ev = 3 THEN 1 ELSE 0, r3 |-> 0, r1 |-> 0, hassize |-> hs, payload |-> Pat(n, salt)]
 TypeSeq == <<1, 2, 3, 6, 8, 15, 4, 5, 7, 0, 9, 14>>
 MtuSeq == SetToSeq(Mtus)
-SizesFor(m) == SetToSeq({ n \in {0, 1, 2, m - 3, m - 2, m - 1, m, m + 1, 2 * m - 3, 2 * m - 2, 2 * m, 126, 127, 128, 129} : n >= 0 /\ n <= 300 })
+\* around one and two packet capacities (capacity = m - 1; header 1-2 bytes, length field 1-2 bytes: offsets -7..+1), and the 127/128 boundary
+SizesFor(m) == SetToSeq({ n \in {0, 1, 2, 126, 127, 128, 129} \cup ((m - 4)..(m + 1)) \cup ((2 * m - 7)..(2 * m + 1)) : n >= 0 /\ n <= 410 })
 Case(m, obus, cls) == [fam |-> "C13", kind |-> "payload", valid |-> TRUE, mtu |-> m, obus |-> obus, stream |-> Stream(obus), class |-> cls]
 \* S1: one OBU
 S1 == Flatten([mi \in 1..Len(MtuSeq) |-> LET m == MtuSeq[mi]  sz == SizesFor(m) IN
